@@ -83,6 +83,8 @@ class Interp(ExprMixin):
         self.raise_sites = []   # (func, ast.Raise, state, ctx)
         self.return_sites = []  # (func, ast.Return, state, value, ctx)
         self.unbound = []       # (function, name, line): a local read on a path on which nothing has bound it
+        self.lambdas = {}             # lambda term -> (node, defining frame, locals at creation)
+        self.closure_env = {}         # nested function qual -> locals of the enclosing frame when it was taken as a value
         self.listing_loops = []       # (function, For node): loops over the entries of a directory listing
         self.listing_loop_exits = []  # (function, For node, "break"/"return", ctx): early normal exits from loops over a directory listing
         self.maybe_unbound = []  # (function, name, line): a local read where only some of the joined paths have bound it
@@ -221,6 +223,10 @@ class Interp(ExprMixin):
         return st
 
     def st_Global(self, s, st, frame, out):
+        return st
+
+    def st_Nonlocal(self, s, st, frame, out):
+        # (what a nested function assigns to a nonlocal name is handed back when its inlined body returns: ExprMixin.inline)
         return st
 
     def st_Import(self, s, st, frame, out):
